@@ -58,7 +58,7 @@ func (g *G) Weighted(ws []int, label string) int {
 // names that are prefixes / substrings of each other; regexp metacharacters.
 var (
 	bases    = []string{"a", "b", "d", "ad", "lib", "test", "x", "é", "Z", "build", "r\xe9sum\xe9", "rebuild", "mytest"}
-	suffixes = []string{"", "", "", ".go", ".c", "-old", "-data", "0", "1", " b", "(1)", "(", "+", "_", ".", "[", "ü", " ", "-", "+x", ".txt", ".log", ".tmp", ".tmpx", ".c++", "\xff", "%d", "%", "100%s"}
+	suffixes = []string{"", "", "", ".go", ".c", "-old", "-data", "0", "1", " b", "(1)", "(", "+", "_", ".", "[", "ü", " ", "-", "+x", ".txt", ".log", ".tmp", ".tmpx", ".c++", "\xff", "%d", "%", "100%s", `\b`, `\`}
 	// IgnoreDirs / IgnoreExts are what a generated .goitignore may contain. Extensions are never
 	// used in directory names, so "ignored" is unambiguous in the generated domain.
 	IgnoreDirs = []string{"build", "lib-old", "test.c"}
